@@ -75,6 +75,16 @@ Definition all_unnamed (fs : list field) : bool :=
 Definition is_boxed (f : field) : bool :=
   match f_type_name f with Some n => contains "Box<" n | None => false end.
 
+(** the type generator's rule after the F20 repair (typegen/src/typegen/mod.rs,
+    [type_name_is_boxed]): [Box<], [Rc<] and [Arc<] - the pointers scale-info registers as their
+    pointee - all make the field boxed.  [is_boxed] above stays the rule of the description crate
+    (description.rs:280), which only looks for [Box<]. *)
+Definition is_boxed_gen (f : field) : bool :=
+  match f_type_name f with
+  | Some n => contains "Box<" n || contains "Rc<" n || contains "Arc<" n
+  | None => false
+  end.
+
 (** ids referenced by one type, in the order the code visits them *)
 Definition param_ids (t : ty) : list N :=
   flat_map (fun p => match tp_ty p with Some i => [i] | None => [] end) (t_params t).
